@@ -264,7 +264,9 @@ pub fn judge(project: &Project, case: &Value, reply: &Value) -> Vec<Violation> {
                         detail: display.to_string(),
                     });
                 }
-                if fired_faults.is_empty() && case["baseline"] == true {
+                // (other code-generator configurations may legitimately refuse a project, e.g. client-side dynamic loading
+                // without a `translations-path`)
+                if fired_faults.is_empty() && case["baseline"] == true && !(stage == "codegen" && !crate::corpus::VARIANT.is_empty()) {
                     // a corpus project must load fault-free; anything else is a corpus or harness problem, not a verdict
                     simkit::harness_error(&format!("corpus project {} does not load fault-free: {display}", project.id));
                 }
